@@ -448,8 +448,17 @@ func makeDFS(w workload, bound int, outcomes *mc.KeyCounter, preempt *int64) *mc
 	}
 }
 
+// families names the workload family of each workload (parallel to ws).
+var families []string
+
 func workloads(r *mc.Run) (ws []workload, bound []int) {
-	add := func(w workload, b int) { ws = append(ws, w); bound = append(bound, b) }
+	families = nil
+	fam := ""
+	add := func(w workload, b int) {
+		ws = append(ws, w)
+		bound = append(bound, b)
+		families = append(families, fam)
+	}
 	n := len(alphabet)
 	pairs := [][]cop{}
 	for i := 0; i < n; i++ {
@@ -458,6 +467,7 @@ func workloads(r *mc.Run) (ws []workload, bound []int) {
 		}
 	}
 	// 2 threads x 2 ops over the full alphabet
+	fam = "2x2 over 12 operations"
 	for _, root := range mc.Pick(r, []int{2}, []int{0, 1, 2}) {
 		for _, a := range pairs {
 			for _, b := range pairs {
@@ -466,6 +476,7 @@ func workloads(r *mc.Run) (ws []workload, bound []int) {
 		}
 	}
 	// ... and over the 6-operation alphabet with a higher bound, from every root
+	fam = "2x2 over 6 operations"
 	var pairs6 [][]cop
 	for _, x := range alphabet6 {
 		for _, y := range alphabet6 {
@@ -480,6 +491,7 @@ func workloads(r *mc.Run) (ws []workload, bound []int) {
 		}
 	}
 	// 3 threads x 1 op, unbounded schedules, all roots
+	fam = "3x1 and 2x1 over 12 operations"
 	for root := 0; root < baseRoots; root++ {
 		for i := 0; i < n; i++ {
 			for j := 0; j < n; j++ {
@@ -496,6 +508,7 @@ func workloads(r *mc.Run) (ws []workload, bound []int) {
 		}
 	}
 	// an aged cache: 2 threads x 1 op, unbounded, and 2 x 2 over the small alphabet
+	fam = "aged cache"
 	for i := 0; i < n; i++ {
 		for j := 0; j < n; j++ {
 			add(workload{baseRoots, [][]cop{{alphabet[i]}, {alphabet[j]}}}, -1)
@@ -509,6 +522,7 @@ func workloads(r *mc.Run) (ws []workload, bound []int) {
 		}
 	}
 	// 4 threads x 1 op (the property speaks of 2-4 goroutines)
+	fam = "4x1 over 6 operations"
 	four := alphabet6
 	for root := 0; root < baseRoots; root++ {
 		for _, a := range four {
@@ -524,6 +538,7 @@ func workloads(r *mc.Run) (ws []workload, bound []int) {
 	if !r.Quick() {
 		m := len(alphabet6)
 		// 2 threads x 3 ops and 3 threads x 2 ops over the small alphabet
+		fam = "2x3 and 3x2 over 6 operations"
 		for root := 0; root < baseRoots; root++ {
 			var triples, dbl [][]cop
 			for i := 0; i < m; i++ {
@@ -683,6 +698,11 @@ func main() {
 				var execs, preempted, nwl int64
 				outcomes := &mc.KeyCounter{}
 				var multi int64
+				for i := range ws {
+					if i%nshards == shard {
+						r.Count("fam:"+families[i]+":workloads", 1)
+					}
+				}
 				for i, w := range ws {
 					if i%nshards != shard {
 						continue
@@ -695,6 +715,8 @@ func main() {
 					res := makeDFS(w, bounds[i], oc, &preempted).Run(r)
 					execs += res.Executions
 					nwl++
+					r.Count("fam:"+families[i]+":done", 1)
+					r.Count("fam:"+families[i]+":executions", res.Executions)
 					if oc.Len() > 1 {
 						multi++
 					}
@@ -773,6 +795,7 @@ func parent(r *mc.Run, nworkloads int) {
 	}
 	wg.Wait()
 	var states, trans, nontriv, wl, multi float64
+	famCount := map[string]int64{}
 	exhaustive := true
 	for k := range outs {
 		if outs[k].err != "" {
@@ -799,6 +822,12 @@ func parent(r *mc.Run, nworkloads int) {
 					b, _ := cs["workloads_with_more_than_one_final_outcome"].(float64)
 					wl += a
 					multi += b
+					for name, v := range cs {
+						if strings.HasPrefix(name, "fam:") {
+							f, _ := v.(float64)
+							famCount[name] += int64(f)
+						}
+					}
 				}
 			}
 		}
@@ -806,8 +835,31 @@ func parent(r *mc.Run, nworkloads int) {
 			r.Violation(c)
 		}
 	}
+	// per family: what was fully covered (a budget cut leaves later families incomplete)
+	fams := map[string]map[string]any{}
+	for name, v := range famCount {
+		parts := strings.Split(name, ":")
+		if len(parts) != 3 {
+			continue
+		}
+		if fams[parts[1]] == nil {
+			fams[parts[1]] = map[string]any{}
+		}
+		fams[parts[1]][parts[2]] = v
+	}
+	var incomplete []string
+	for f, m := range fams {
+		done, _ := m["done"].(int64)
+		total, _ := m["workloads"].(int64)
+		m["complete"] = done == total
+		if done != total {
+			incomplete = append(incomplete, fmt.Sprintf("%s (%d of %d workloads)", f, done, total))
+		}
+	}
+	sort.Strings(incomplete)
+	r.Extra("workload_families", fams)
 	if !exhaustive {
-		r.NotExhaustive("at least one shard did not finish within the tier budget")
+		r.NotExhaustive("at least one shard did not finish within the tier budget; incomplete families: " + strings.Join(incomplete, ", "))
 	}
 	r.AddEval(int64(states), int64(trans), int64(trans), int64(nontriv))
 	r.Count("workloads", int64(wl))
